@@ -327,6 +327,7 @@ Module Tiny.
 (* element names = element definitions = data types:
    0 AUTOSAR  1 AR-PACKAGES  2 AR-PACKAGE  3 SHORT-NAME  4 ELEMENTS  5 SYSTEM  6 FIBEX-ELEMENT-REF  7 DESC (mixed)
    8 TT  9 OLD-THING (has a SHORT-NAME only in version bit 1, not in version bit 2)
+   10 MIXED-NAMED (mixed content AND named, like ECUC-QUERY-EXPRESSION in the real tables)
    versions: bit 1 and bit 2 (LATEST = 2).  attribute 0 = DEST.  enum items 0 AR-PACKAGE 1 SYSTEM 2 OLD-THING *)
 Definition nAUTOSAR := 0. Definition nPKGS := 1. Definition nPKG := 2. Definition nSHORT := 3. Definition nELEMENTS := 4.
 Definition nSYSTEM := 5. Definition nREF := 6. Definition nDESC := 7. Definition nTT := 8. Definition nOLD := 9.
@@ -337,46 +338,50 @@ Definition mkD (s e : N) (as_ ae : N) (cd mode : N) (rs re : N) : dtype :=
   {| dt_sub_start := s; dt_sub_end := e; dt_sub_ver := s; dt_attr_start := as_; dt_attr_end := ae; dt_attr_ver := 100 + as_;
      dt_cdata := cd; dt_mode := mode; dt_ref_start := rs; dt_ref_end := re |}.
 
+Definition nMIXN := 10.
+
 Definition tiny : tables := {|
   T_elements := fun i => match i with
     | 0 => Some (mkE 0 0 1 0) | 1 => Some (mkE 1 1 0 3) | 2 => Some (mkE 2 2 2 0) | 3 => Some (mkE 3 3 1 0)
     | 4 => Some (mkE 4 4 0 3) | 5 => Some (mkE 5 5 2 0) | 6 => Some (mkE 6 6 2 0) | 7 => Some (mkE 7 7 0 0)
-    | 8 => Some (mkE 8 8 2 0) | 9 => Some (mkE 9 9 2 0) | _ => None end;
-  n_elements := 10;
+    | 8 => Some (mkE 8 8 2 0) | 9 => Some (mkE 9 9 2 0) | 10 => Some (mkE 10 10 2 0) | _ => None end;
+  n_elements := 11;
   (* flat SUBELEMENTS: (0, def) = element *)
   T_subelements := fun i => match i with
     | 0 => Some (0, 1)                                        (* AUTOSAR: AR-PACKAGES *)
     | 1 => Some (0, 2)                                        (* AR-PACKAGES: AR-PACKAGE* *)
     | 2 => Some (0, 3) | 3 => Some (0, 4) | 4 => Some (0, 1)  (* AR-PACKAGE: SHORT-NAME ELEMENTS AR-PACKAGES *)
-    | 5 => Some (0, 5) | 6 => Some (0, 9)                     (* ELEMENTS (bag): SYSTEM* OLD-THING* *)
-    | 7 => Some (0, 3) | 8 => Some (0, 7) | 9 => Some (0, 6)  (* SYSTEM: SHORT-NAME DESC FIBEX-ELEMENT-REF* *)
-    | 10 => Some (0, 8) | 11 => Some (0, 6) | 12 => Some (0, 5)  (* DESC (mixed): TT* FIBEX-ELEMENT-REF* SYSTEM* *)
-    | 13 => Some (0, 3) | 14 => Some (0, 6)                   (* OLD-THING: SHORT-NAME(v1 only) FIBEX-ELEMENT-REF* *)
+    | 5 => Some (0, 5) | 6 => Some (0, 9) | 7 => Some (0, 10) (* ELEMENTS (bag): SYSTEM* OLD-THING* MIXED-NAMED* *)
+    | 8 => Some (0, 3) | 9 => Some (0, 7) | 10 => Some (0, 6) (* SYSTEM: SHORT-NAME DESC FIBEX-ELEMENT-REF* *)
+    | 11 => Some (0, 8) | 12 => Some (0, 6) | 13 => Some (0, 5)  (* DESC (mixed): TT* FIBEX-ELEMENT-REF* SYSTEM* *)
+    | 14 => Some (0, 3) | 15 => Some (0, 6)                   (* OLD-THING: SHORT-NAME(v1 only) FIBEX-ELEMENT-REF* *)
+    | 16 => Some (0, 3) | 17 => Some (0, 8)                   (* MIXED-NAMED (mixed, named): SHORT-NAME TT* *)
     | _ => None end;
-  n_subelements := 15;
+  n_subelements := 18;
   T_attributes := fun i => match i with 0 => Some (0, 2, 1) | _ => None end;   (* DEST : enum, required *)
   n_attributes := 1;
-  T_version_info := fun i => if i =? 13 then Some 1 else Some 3;
+  T_version_info := fun i => if i =? 14 then Some 1 else Some 3;
   n_version_info := 200;
   T_datatypes := fun i => match i with
     | 0 => Some (mkD 0 1 0 0 0 MSequence 0 0)
     | 1 => Some (mkD 1 2 0 0 0 MSequence 0 0)
     | 2 => Some (mkD 2 5 0 0 0 MSequence 0 1)
     | 3 => Some (mkD 5 5 0 0 1 MCharacters 0 0)      (* SHORT-NAME: cdata 0 *)
-    | 4 => Some (mkD 5 7 0 0 0 MBag 0 0)
-    | 5 => Some (mkD 7 10 0 0 0 MSequence 1 2)
-    | 6 => Some (mkD 10 10 0 1 2 MCharacters 0 0)    (* reference: cdata 1, attribute DEST *)
-    | 7 => Some (mkD 10 13 0 0 4 MMixed 0 0)         (* DESC: cdata 3 *)
-    | 8 => Some (mkD 13 13 0 0 4 MCharacters 0 0)
-    | 9 => Some (mkD 13 15 0 0 0 MSequence 2 3)
+    | 4 => Some (mkD 5 8 0 0 0 MBag 0 0)
+    | 5 => Some (mkD 8 11 0 0 0 MSequence 1 2)
+    | 6 => Some (mkD 11 11 0 1 2 MCharacters 0 0)    (* reference: cdata 1, attribute DEST *)
+    | 7 => Some (mkD 11 14 0 0 4 MMixed 0 0)         (* DESC: cdata 3 *)
+    | 8 => Some (mkD 14 14 0 0 4 MCharacters 0 0)
+    | 9 => Some (mkD 14 16 0 0 0 MSequence 2 3)
+    | 10 => Some (mkD 16 18 0 0 4 MMixed 3 4)
     | _ => None end;
-  n_datatypes := 10;
-  T_ref_items := fun i => match i with 0 => Some 0 | 1 => Some 1 | 2 => Some 2 | _ => None end;
-  n_ref_items := 3;
+  n_datatypes := 11;
+  T_ref_items := fun i => match i with 0 => Some 0 | 1 => Some 1 | 2 => Some 2 | 3 => Some 3 | _ => None end;
+  n_ref_items := 4;
   T_cdata := fun i => match i with
     | 0 => Some (CPattern 0 (Some 8))       (* identifier: non-empty, no '/' , at most 8 bytes *)
     | 1 => Some (CPattern 1 (Some 12))      (* reference: starts with '/', at most 12 bytes *)
-    | 2 => Some (CEnum [(0, 3); (1, 3); (2, 3)])
+    | 2 => Some (CEnum [(0, 3); (1, 3); (2, 3); (3, 3)])
     | 3 => Some (CString false None)
     | _ => None end;
   n_cdata := 4;
@@ -392,7 +397,7 @@ Definition tiny_check_fn (fn : N) (s : list N) : res bool :=
 
 Definition tiny_el : nametab :=
   {| nt_strtab := [BS "AUTOSAR"; BS "AR-PACKAGES"; BS "AR-PACKAGE"; BS "SHORT-NAME"; BS "ELEMENTS"; BS "SYSTEM";
-                   BS "FIBEX-ELEMENT-REF"; BS "DESC"; BS "TT"; BS "OLD-THING"];
+                   BS "FIBEX-ELEMENT-REF"; BS "DESC"; BS "TT"; BS "OLD-THING"; BS "MIXED-NAMED"];
      nt_disp := [(0, 0)]; nt_mdisp := 1; nt_mtab := 1 |}.
 (* every from_bytes on this table is Err, so Element::set_reference_target takes the reference_dest_value route *)
 Definition tiny_en : nametab := {| nt_strtab := [BS "~"]; nt_disp := [(0, 0)]; nt_mdisp := 1; nt_mtab := 1 |}.
